@@ -942,6 +942,21 @@ def run(ctx):
         res = vlib.differential(ctx, 'txt-rdata', ho, gen_txt_cases(ctx),
                                 corr_name='model QsmtpModel.Spf.Txt.txtRecord vs lib/libowfatconn.c:dnstxt_records (DNS packet built by the harness around the RDATA)')
         unit_fault(ctx, 'txt-rdata', res)
+        # the contract read off the wire format itself (for RDATAs that are well-formed lists of character-strings)
+        tf = []
+        for c, ho_, mo in res:
+            want, ok = [], True
+            for h_ in c.split(' ')[1:]:
+                rd, rec, i = (b'' if h_ == '-' else bytes.fromhex(h_)), b'', 0
+                while i < len(rd):
+                    L = rd[i]
+                    if i + 1 + L > len(rd):
+                        ok = False; break
+                    rec += bytes(x if 32 <= x <= 126 else 63 for x in rd[i + 1:i + 1 + L]); i += 1 + L
+                want.append(rec.hex() or '-')
+            if ok and ho_ != 'r=%d %s' % (len(want), ','.join(want)):
+                tf.append((c[:400], ho_[:300], 'fails txt-record-is-concatenation (the record is not the concatenation of its character-strings, octets outside 32..126 replaced by ?)'))
+        vlib.handle_results(ctx, 'txt-rdata-contract', 'TXT wire format vs dnstxt_records()', [], tf)
     h = vlib.build_harness(ctx, 'h_spf')
     if h:
         rng = ctx.rng
